@@ -146,6 +146,36 @@ func c02Oracle(x *explore.Ctx, c *model.Content, cfg gow.Config, res *gow.Result
 			}
 		}
 	}
+	// a topic selection through the default (index-preferring) read: exactly the scan's messages on that topic, or an error
+	topics := map[string]bool{}
+	for _, t := range scan.Triples {
+		topics[t.C.Topic] = true
+	}
+	for topic := range topics {
+		var want []gow.Triple
+		for _, t := range scan.Triples {
+			if t.C.Topic == topic {
+				want = append(want, t)
+			}
+		}
+		ir := gow.Iterate(bytes.NewReader(b), gow.NextIntoNil, false, nil, 0, mcap.WithTopics([]string{topic}))
+		if ir.Panic != "" {
+			return vio("C02:index-panic", "topic-filtered read panicked: %s%s", ir.Panic, ctxs)
+		}
+		if err := ir.Failed(); err != nil {
+			if indexable {
+				return vio("C02:index-error", "Messages(WithTopics(%q)) failed on an indexed file: %v%s", topic, err, ctxs)
+			}
+			continue
+		}
+		if v := compareTriples("C02", fmt.Sprintf("Messages(WithTopics(%q)) vs scan", topic), ir.Triples, want); v != nil {
+			if len(ir.Triples) < len(want) {
+				v.Sig = "C02:topic-filter-silent-loss"
+			}
+			v.Msg += ctxs
+			return v
+		}
+	}
 	// random access through the index entries
 	rd, err := mcap.NewReader(bytes.NewReader(b))
 	if err != nil {
